@@ -321,7 +321,7 @@ func serialiseClass(cfg histCfg) string {
 
 func runHist(r *rep.R, prop string) {
 	D, A, K := 2, 3, 2
-	alphabet := []int{opGetDeviceID, opChassisControl, opGetSDR, opSetPriv, opPowerReading, opUnserialisable}
+	alphabet := []int{opGetDeviceID, opChassisControl, opGetSDR, opSetPriv, opPowerReading, opUnserialisable, opSensorReading}
 	if thorough(r) {
 		D, A, K = 3, 4, 2
 	}
@@ -391,6 +391,26 @@ func runHist(r *rep.R, prop string) {
 			histExplore(r, prop, cfg, K+1, &idx)
 		}
 	}
+	// the same kind of exploration over the library's real transport and a
+	// loopback socket, compared execution by execution with the in-memory model
+	for _, inSess := range []bool{true, false} {
+		for _, op := range alphabet {
+			hs := [][]int{{op}}
+			if thorough(r) {
+				for _, op2 := range []int{opGetDeviceID, opPowerReading} {
+					hs = append(hs, []int{op, op2})
+				}
+			}
+			for _, h := range hs {
+				ops := h
+				if inSess {
+					ops = append(append([]int{}, h...), opClose)
+				}
+				histConform(r, prop, histCfg{Suite: suites[0], InSession: inSess, Ops: ops, Horizon: 2, Alphabet: "retry"}, 2, &idx)
+			}
+		}
+	}
+	histConform(r, prop, histCfg{Suite: suites[0], InSession: true, Ops: []int{opGetDeviceID, opClose}, Horizon: 2, HSAlphabet: "handshake", Discover: true}, 1, &idx)
 	// structured long histories: 24 commands cycling the alphabet, one
 	// deviation at each position in turn
 	long := make([]int, 0, 24)
@@ -443,6 +463,133 @@ func histExplore(r *rep.R, prop string, cfg histCfg, bound int, idx *int64) {
 		}
 	}
 	e.Explore()
+}
+
+// histConform explores cfg over the library's real transport and a loopback
+// socket (the same environment, chooser and answer menus: env.UDPFront). Each
+// execution is judged by the property's oracles and compared with the
+// execution of the same choice vector over the in-memory transport: the
+// datagrams the BMC received and the callers' results must be identical. This
+// binds the in-memory socket model, on which the deep explorations run, to
+// internal/pkg/transport.
+func histConform(r *rep.R, prop string, cfg histCfg, bound int, idx *int64) {
+	cfg.UDP = true
+	mem := cfg
+	mem.UDP = false
+	tag := fmt.Sprintf("%s/udp/%v/%v/%v/%s/%d/%s/%v", prop, cfg.Suite, cfg.InSession, cfg.Ops, cfg.Alphabet, cfg.Horizon, cfg.HSAlphabet, cfg.Discover)
+	judge := func(choices []int) ([]finding, *histObs) {
+		o := runHistory(cfg, &env.Chooser{Prefix: choices})
+		if o.Infra != "" {
+			return nil, o
+		}
+		fs := histJudge(prop, cfg, o)
+		m := runHistory(mem, &env.Chooser{Prefix: choices})
+		if d := histDiff(o, m); d != "" {
+			fs = append(fs, finding{prop + "/real-transport-differs-from-in-memory-model", d})
+		}
+		if o.W != nil && o.W.Runaway != "" {
+			fs = append(fs, finding{prop + "/real-transport/retry-loop-does-not-end", o.W.Runaway})
+		}
+		return fs, o
+	}
+	e := &env.Explorer{R: r, Bound: bound, Scenario: tag, Idx: idx,
+		Run:  func(ch *env.Chooser) any { return runHistory(cfg, ch) },
+		Stop: func() bool { return udpStop },
+	}
+	e.Check = func(ch *env.Chooser, obs any) {
+		o := obs.(*histObs)
+		if o.Infra != "" {
+			r.Infra("loopback socket: %s", o.Infra)
+			return
+		}
+		choices := append([]int{}, ch.Choices...)
+		fs := histJudge(prop, cfg, o)
+		m := runHistory(mem, &env.Chooser{Prefix: choices})
+		if d := histDiff(o, m); d != "" {
+			fs = append(fs, finding{prop + "/real-transport-differs-from-in-memory-model", d})
+		}
+		if o.W != nil && o.W.Runaway != "" {
+			fs = append(fs, finding{prop + "/real-transport/retry-loop-does-not-end", o.W.Runaway})
+		}
+		if len(fs) == 0 {
+			r.Outcome("udp:" + histOutcome(o))
+			return
+		}
+		// real timers: report only what repeats on two further runs
+		seen := map[string]int{}
+		for i := 0; i < 2; i++ {
+			gs, _ := judge(choices)
+			once := map[string]bool{}
+			for _, g := range gs {
+				if !once[g.key] {
+					once[g.key] = true
+					seen[g.key]++
+				}
+			}
+		}
+		for _, f := range fs {
+			if seen[f.key] < 2 {
+				r.Count("udp_mismatch_not_reproduced", 1)
+				continue
+			}
+			r.Outcome("violation")
+			rp := histSample(cfg, ch, o)
+			rp.Prop, rp.Key = prop, f.key
+			r.Violate(f.key, f.msg, "hist", rp, nil)
+			// executions over the real socket wait through real timeouts, and a
+			// library that misbehaves there tends to do so on many of them: the
+			// replay stage stops at its first confirmed counterexample (the
+			// in-memory exploration is not affected)
+			udpStop = true
+			r.Cap("real-transport replay stopped at its first counterexample")
+		}
+	}
+	e.Explore()
+}
+
+// udpStop ends the real-transport replays of this process early.
+var udpStop bool
+
+// histDiff compares an execution over the real transport (u) with the
+// in-memory execution of the same choices (m): "" if the BMC received the same
+// datagrams and the caller got the same results.
+func histDiff(u, m *histObs) string {
+	if (u.HandshakeErr == "") != (m.HandshakeErr == "") {
+		return fmt.Sprintf("handshake over the real transport: %q; over the model: %q", u.HandshakeErr, m.HandshakeErr)
+	}
+	reqs := func(o *histObs) [][]byte {
+		var out [][]byte
+		if o.W == nil {
+			return nil
+		}
+		for _, ex := range o.W.T.Log {
+			if !ex.CtxDone {
+				out = append(out, ex.Req)
+			}
+		}
+		return out
+	}
+	ur, mr := reqs(u), reqs(m)
+	for i := 0; i < len(ur) || i < len(mr); i++ {
+		switch {
+		case i >= len(ur):
+			return fmt.Sprintf("the model's BMC received %d datagrams, the real socket's only %d; first missing: % x", len(mr), len(ur), mr[i])
+		case i >= len(mr):
+			return fmt.Sprintf("the BMC behind the real socket received %d datagrams, the model's only %d; first extra: % x", len(ur), len(mr), ur[i])
+		case string(ur[i]) != string(mr[i]):
+			return fmt.Sprintf("datagram %d differs: real socket % x, model % x", i, ur[i], mr[i])
+		}
+	}
+	if len(u.Results) != len(m.Results) {
+		return fmt.Sprintf("%d results over the real transport, %d over the model", len(u.Results), len(m.Results))
+	}
+	for i := range u.Results {
+		a, b := u.Results[i], m.Results[i]
+		if a.ErrNil != b.ErrNil || a.Code != b.Code || a.Rsp != b.Rsp || (a.Panic == "") != (b.Panic == "") {
+			return fmt.Sprintf("result %d differs: real transport (code %#02x, err %q, %s), model (code %#02x, err %q, %s)", i, a.Code, a.Err, a.Rsp, b.Code, b.Err, b.Rsp)
+		}
+	}
+	return ""
 }
 
 func histSample(cfg histCfg, ch *env.Chooser, o *histObs) histReplay {
